@@ -4,6 +4,7 @@ package vh
 
 import (
 	"flag"
+	"runtime/pprof"
 	"fmt"
 	"os"
 	"sort"
@@ -57,6 +58,12 @@ func Main() {
 		os.Exit(2)
 	}
 	cfg.R = NewRand(cfg.Seed)
+	if pf := os.Getenv("VERIF_CPUPROFILE"); pf != "" {
+		if f, err := os.Create(pf); err == nil {
+			pprof.StartCPUProfile(f)
+			defer pprof.StopCPUProfile()
+		}
+	}
 	if err := r(cfg); err != nil {
 		fmt.Fprintf(os.Stderr, "j5run %s: %v\n", cfg.Prop, err)
 		os.Exit(3)
